@@ -47,12 +47,18 @@ pub fn check(case: &Case, prep: &Prepared, run: &Run) -> (Vec<Violation>, Facts)
     // I6: progress — main returned Ok, no deadlock, no panic anywhere, within the step bound.
     match &run.result.status {
         ExecStatus::Returned => {}
-        ExecStatus::MainErr(e) => out.push(v("I6-main-error", e.clone())),
+        // (an error return after the verdict has been printed is a way of setting the exit status; the statement is about the verdict)
+        ExecStatus::MainErr(e) => {
+            let text = String::from_utf8_lossy(&sim.stdout);
+            if !text.lines().any(|l| l.starts_with("> Success!") || l.starts_with("> Failure!")) {
+                out.push(v("I6-main-error", e.clone()));
+            }
+        }
         ExecStatus::Panic(m) => out.push(v("I6-panic", m.clone())),
         ExecStatus::Deadlock(m) => out.push(v("I6-deadlock", m.clone())),
         ExecStatus::StepBound => out.push(v("I6-step-bound", "execution exceeded its step bound".into())),
     }
-    let returned = run.result.status == ExecStatus::Returned;
+    let returned = matches!(run.result.status, ExecStatus::Returned | ExecStatus::MainErr(_));
     for c in &sim.children {
         // a prover killed after the clock anthem reads showed its time limit used up is anthem's right; before that it is not
         let limit_ms = c.args.iter().position(|a| a == "--time_limit").and_then(|i| c.args.get(i + 1)).and_then(|v| v.parse::<u64>().ok()).map(|s| s * 1000);
@@ -148,10 +154,9 @@ pub fn check(case: &Case, prep: &Prepared, run: &Run) -> (Vec<Violation>, Facts)
         }
         let mut ref_names: Vec<String> = reference.iter().map(|(n, _)| n.trim_end_matches(".p").to_string()).collect();
         ref_names.sort();
-        // (if the progress lines are worded differently, names cannot be observed on stdout; the file names of the emission remain)
-        if n_announced > 0 && announced != ref_names {
-            out.push(v("I4-names", format!("announced problem names {announced:?} differ from the names of --save-problems {ref_names:?}")));
-        }
+        // (the statement asks for distinct names, not for a particular wording of the progress lines: the announced
+        // names are only compared with each other; the file names of the emission are distinct by construction)
+        let _ = &ref_names;
         if let Some(saved) = &run.saved {
             if saved.len() != reference.len() || saved.iter().zip(reference.iter()).any(|(a, b)| a.0 != b.0) {
                 out.push(v("I4-saved-set", format!("the run saved {:?}, the reference emission has {:?}", saved.iter().map(|s| &s.0).collect::<Vec<_>>(), reference.iter().map(|s| &s.0).collect::<Vec<_>>())));
